@@ -141,6 +141,8 @@ def eq_variants(spec, n):
         out += ["shorter", "longer"]
     if n >= 2:
         out += ["bcast1", "bcast1r"]
+    if n >= 1 and any(w and w >= 2 for _, _, w in spec):
+        out += ["width1", "width1r"]
     return out
 
 
@@ -451,6 +453,17 @@ def check(case):
             other = fields_for(spec, n - 1)
         elif v == "longer":
             other = fields_for(spec, n + 1)
+        elif v in ("width1", "width1r"):
+            # same number of entries, but a 2-D field of width 1 against width w whose rows are constant: numpy would broadcast
+            fields = [f.copy() for f in keep]
+            other = [f.copy() for f in keep]
+            for j, (fname, d, w) in enumerate(spec):
+                if w and w >= 2:
+                    first = fields[j][:, :1].copy()
+                    fields[j] = np.repeat(first, w, axis=1)
+                    other[j] = first
+            keep = [f.copy() for f in fields]
+            obj = cls(*fields)
         elif v in ("bcast1", "bcast1r"):
             # a one-row table against an n-row table whose rows are all equal to that row: numpy would broadcast
             fields = fields_for(spec, n, const=True)
@@ -469,7 +482,7 @@ def check(case):
         vk = v if isinstance(v, str) else ("diff-last-field" if v["diff"][0] == k - 1 else "diff-earlier-field")
         try:
             o2 = cls(*other)
-            left, right = (o2, obj) if v in ("bcast1r",) else (obj, o2)
+            left, right = (o2, obj) if v in ("bcast1r", "width1r") else (obj, o2)
             res = left == right
             res = bool(res)
         except Exception as e:
